@@ -219,7 +219,7 @@ class LostSegmentTracker:
 
 @dataclass
 class _AckedModeParams:
-    lost_seg_tracker: LostSegmentTracker = field(default=LostSegmentTracker())
+    lost_seg_tracker: LostSegmentTracker = field(default_factory=LostSegmentTracker)
     metadata_missing: bool = False
     last_start_offset: int = 0
     last_end_offset: int = 0
